@@ -7,6 +7,11 @@
 // unsuffixed sections sort after every suffixed one (65535, the lowest priority GCC emits).
 // BOUNDED: section names of at most MAXLEN bytes.
 use super::*;
+// named through an import (a bare path in kani::stub may bind to nothing useful)
+use core::str::from_utf8 as from_utf8_of_core;
+
+#[path = "__verif_stubs.rs"]
+mod stubs;
 
 const MAXLEN: usize = 16;
 
@@ -92,6 +97,7 @@ macro_rules! c30_family_harness {
     ($name:ident, $fam:expr, $tail:expr, $decimal:expr) => {
         #[kani::proof]
         #[kani::unwind(19)]
+        #[kani::stub(from_utf8_of_core, stubs::verif_from_utf8_ascii_stub)]
         fn $name() {
             const FLEN: usize = $fam.len();
             const TAIL: usize = $tail;
@@ -128,6 +134,7 @@ macro_rules! c30_family {
         // a name that differs from the family name in exactly one (symbolic) position, with and
         // without a ".7" suffix, is not in the family
         #[kani::proof]
+        #[kani::stub(from_utf8_of_core, stubs::verif_from_utf8_ascii_stub)]
         #[kani::unwind(19)]
         fn $off() {
             const FLEN: usize = $fam.len();
@@ -139,8 +146,11 @@ macro_rules! c30_family {
             kani::assume(idx < FLEN);
             let c: u8 = kani::any();
             kani::assume(c != buf[idx]);
-            // .ctors <-> .dtors differ in two positions, .init_array <-> .fini_array in three
             buf[idx] = c;
+            // .ctors <-> .dtors differ in exactly ONE position (.init_array <-> .fini_array in
+            // three): a mutation that lands on another family name is not "off the family"
+            let base = &buf[..FLEN];
+            kani::assume(base != &b".ctors"[..] && base != &b".dtors"[..]);
             let with_suffix: bool = kani::any();
             let name = if with_suffix { &buf[..] } else { &buf[..FLEN] };
             assert!(init_fini_priority(name).is_none(), "a name one byte off a family name got a priority");
@@ -157,11 +167,19 @@ c30_family!(b".ctors", c30_priority_ctors_bare, c30_priority_ctors_2_digits, c30
 c30_family!(b".dtors", c30_priority_dtors_bare, c30_priority_dtors_2_digits, c30_priority_dtors_5_digits,
     c30_priority_dtors_3_other_bytes, c30_priority_dtors_6_other_bytes, c30_priority_dtors_one_byte_off);
 
+// one-digit suffixes: cheap enough for the quick tier (no multi-digit accumulation), and enough to
+// tell the two key directions apart (N for .init_array/.fini_array, 65535 - N for .ctors/.dtors)
+c30_family_harness!(c30_priority_init_array_1_digit, b".init_array", 2, true);
+c30_family_harness!(c30_priority_fini_array_1_digit, b".fini_array", 2, true);
+c30_family_harness!(c30_priority_ctors_1_digit, b".ctors", 2, true);
+c30_family_harness!(c30_priority_dtors_1_digit, b".dtors", 2, true);
+
 // the Platform hook used by resolution.rs (<Elf as Platform>::init_section_priority) obeys the same
 // rule: bare names and two-digit suffixes of the four families
 macro_rules! c30_hook_harness {
     ($name:ident, $fam:expr) => {
         #[kani::proof]
+        #[kani::stub(from_utf8_of_core, stubs::verif_from_utf8_ascii_stub)]
         #[kani::unwind(19)]
         fn $name() {
             const FLEN: usize = $fam.len();
@@ -182,6 +200,7 @@ c30_hook_harness!(c30_platform_hook_ctors, b".ctors");
 
 // every name of exactly 6 bytes (all symbolic; too short to reach the suffix parser)
 #[kani::proof]
+#[kani::stub(from_utf8_of_core, stubs::verif_from_utf8_ascii_stub)]
 #[kani::unwind(19)]
 fn c30_priority_any_name_of_6_bytes() {
     let buf: [u8; 6] = kani::any();
@@ -192,6 +211,7 @@ fn c30_priority_any_name_of_6_bytes() {
 // in-range priorities, wild's key orders them exactly as the numeric suffix does (ascending for
 // .init_array/.fini_array, descending for .ctors/.dtors).
 #[kani::proof]
+#[kani::stub(from_utf8_of_core, stubs::verif_from_utf8_ascii_stub)]
 #[kani::unwind(8)]
 fn c30_parse_suffix_is_decimal_value() {
     let digits: [u8; 5] = kani::any();
@@ -211,6 +231,7 @@ fn c30_parse_suffix_is_decimal_value() {
 }
 
 #[kani::proof]
+#[kani::stub(from_utf8_of_core, stubs::verif_from_utf8_ascii_stub)]
 #[kani::unwind(8)]
 fn c30_parse_suffix_rejects_non_digits_and_empty() {
     let s: [u8; 5] = kani::any();
@@ -229,6 +250,7 @@ fn c30_parse_suffix_rejects_non_digits_and_empty() {
 }
 
 #[kani::proof]
+#[kani::stub(from_utf8_of_core, stubs::verif_from_utf8_ascii_stub)]
 #[kani::unwind(19)]
 fn c30_canary_suffixed_names_reachable() {
     let mut buf = [0u8; 9];
